@@ -14,7 +14,7 @@ from ..tol import max_err
 from ..tlc import MachineryError, json_lines
 from .c12 import poly_field
 
-CFG = ("SPECIFICATION Spec\nCONSTANTS\n  Shapes <- QShapes\n  SpacingsOf <- QSpacings\n  FieldsOf <- QFields\n  Probes <- QProbes\n"
+CFG = ("SPECIFICATION Spec\nCONSTANTS\n  Shapes <- {T}Shapes\n  SpacingsOf <- {T}Spacings\n  FieldsOf <- {T}Fields\n  Probes <- {T}Probes\n"
        "  EmitCases = {emit}\n{inv}CONSTRAINT REmit\n")
 REL = 1e-5
 
@@ -248,8 +248,8 @@ def run(ctx: Ctx) -> None:
     ctx.rule = ("one case per (shape, spacing, polynomial field): energies at interior probes in 4 derivative modes and 3 reductions, scaling / spacing / "
                 "affine-invariance relations, null spaces, linear transformations, loss classes; B-spline bending for three stride settings; every pair of "
                 "elastic constants for 4 materials; inverse consistency of exact and non-inverse affine pairs in 3 units x 2 align_corners")
-    ctx.tlc("MC_Regulariser", CFG.format(emit="FALSE", inv="INVARIANT RLaws\n"), label="laws", timeout=3000)
-    res = ctx.tlc("MC_Regulariser", CFG.format(emit="TRUE", inv=""), label="emit", timeout=3000)
+    ctx.tlc("MC_Regulariser", CFG.format(T="Q" if ctx.tier == "quick" else "T", emit="FALSE", inv="INVARIANT RLaws\n"), label="laws", timeout=3000)
+    res = ctx.tlc("MC_Regulariser", CFG.format(T="Q" if ctx.tier == "quick" else "T", emit="TRUE", inv=""), label="emit", timeout=3000)
     cases = json_lines(res, key=None)
     if not cases:
         raise MachineryError("no cases")
